@@ -89,32 +89,14 @@ def retry(chk, crate):
             if v.kind == "rv" and v.rv["r"] == "discr" and ty_str(v.rv["of"]).startswith("core::result::Result<") and \
                     "tokio::time::error::Elapsed" in ty_str(v.rv["of"]):
                 timeouts.append((i, t))
-    # product exploration
+    # product exploration: (block, failed-ghost, slot, known constants).  Constant tracking (bool flags, enum
+    # variants incl. payloads, Try::branch, from_residual) is mirlite.bool_transfer - the same machinery as
+    # feasible_reach - plus one fork: Result::is_err(item) is true exactly when this attempt failed.
+    from mirlite import bool_transfer, bool_switch_target, switch_relevant_locals, prune_known
+    relevant = switch_relevant_locals(b)
     findings = {}
-    # locals whose discriminant is switched on: track constant variant assignments path-sensitively
-    disc_locals = set()
-    for i in sorted(f.reach):
-        tt_ = b.blocks[i]["term"]
-        if tt_["t"] == "switch":
-            v_ = tr.value(tt_["d"])
-            if v_.kind == "rv" and v_.rv["r"] == "discr":
-                np_ = tr.nplace(v_.rv["p"])
-                if not np_.p:
-                    disc_locals.add(np_.l)
-    # locals that flow (by plain copies/moves) into a switched-on local
-    track_locals = set(disc_locals)
-    changed = True
-    while changed:
-        changed = False
-        for l_ in list(track_locals):
-            for d_ in tr.defs.get(l_, []):
-                if d_[2] == "assign" and d_[3]["rv"]["r"] == "use":
-                    p_ = op_place(d_[3]["rv"]["o"])
-                    if p_ is not None and not p_["p"] and p_["l"] not in track_locals:
-                        track_locals.add(p_["l"])
-                        changed = True
     pending_at_yield = []
-    start = (0, (), False, "U", ())
+    start = (0, False, "U", frozenset())
     seen = {start: None}
     dq = deque([start])
 
@@ -128,42 +110,28 @@ def retry(chk, crate):
                 while cur is not None:
                     tr_.append(cur)
                     cur = seen.get(cur)
-                print("TRACE", rule, [("bb%d" % s[0], s[1], s[2], s[3]) for s in reversed(tr_)][-60:])
+                print("TRACE", rule, [("bb%d" % s[0], s[1], s[2]) for s in reversed(tr_)][-60:])
+
+    def slot_call(t):
+        """'S' / 'N' if the call stores into / empties the connection slot through the Option API."""
+        n = callee(t)
+        if not t["args"]:
+            return None
+        a0 = ex.operand(t["args"][0])
+        if not any(inner_path(x) for x in walk(a0)):
+            return None
+        if n in ("core::option::Option::<T>::insert", "core::option::Option::<T>::replace", "core::option::Option::<T>::get_or_insert"):
+            return "S"
+        if n == "core::option::Option::<T>::take":
+            return "N"
+        return None
 
     def succs(state):
-        bb, fl, failed, slot, known = state
-        known = dict(known)
-        bools = dict(fl)
+        bb, failed, slot, kn = state
         blk = b.blocks[bb]
         t = blk["term"]
-        # statements
-        for st in blk["stmts"]:
-            if st["s"] != "assign":
-                continue
-            if not st["p"]["p"] and st["p"]["l"] in bool_locals:
-                rv_ = st["rv"]
-                dl = st["p"]["l"]
-                src = op_place(rv_["o"]) if rv_["r"] == "use" else None
-                if src is not None and not src["p"] and src["l"] in bools:
-                    bools[dl] = bools[src["l"]]
-                elif rv_["r"] == "use" and ex.rvalue(rv_) == ("const", 1):
-                    bools[dl] = "T"
-                elif rv_["r"] == "use" and ex.rvalue(rv_) == ("const", 0):
-                    bools[dl] = "F"
-                elif rv_["r"] == "un" and rv_.get("op") == "Not" and op_place(rv_["a"]) is not None and \
-                        not op_place(rv_["a"])["p"] and op_place(rv_["a"])["l"] in bools:
-                    bools[dl] = "F" if bools[op_place(rv_["a"])["l"]] == "T" else "T"
-                else:
-                    bools.pop(dl, None)
-            if not st["p"]["p"] and st["p"]["l"] in track_locals:
-                rv_ = st["rv"]
-                if rv_["r"] == "agg" and rv_["kind"] == "adt":
-                    known[st["p"]["l"]] = rv_["variant"]
-                elif rv_["r"] == "use" and op_place(rv_["o"]) is not None and not op_place(rv_["o"])["p"] and \
-                        op_place(rv_["o"])["l"] in known:
-                    known[st["p"]["l"]] = known[op_place(rv_["o"])["l"]]
-                else:
-                    known.pop(st["p"]["l"], None)
+        known = prune_known(bool_transfer(b, bb, dict(kn)), relevant)
+        only = bool_switch_target(b, bb, known)
         if bb in slot_writes:
             kind = slot_writes[bb][0]
             if kind == "N":
@@ -174,94 +142,78 @@ def retry(chk, crate):
                 slot = "S"
             else:
                 slot = "U"
-        if t["t"] == "call" and not t["dest"]["p"]:
-            known.pop(t["dest"]["l"], None)
-            bools.pop(t["dest"]["l"], None)
-        kn = tuple(sorted(known.items()))
-        forks = [(tuple(sorted(bools.items())), failed)]
-        if t["t"] == "call" and callee(t) == "core::result::Result::<T, E>::is_err" and not t["dest"]["p"] and \
-                t["dest"]["l"] in bool_locals:
-            # the item being yielded is an error (this attempt failed) or it is not
-            dl = t["dest"]["l"]
-            bt = dict(bools); bt[dl] = "T"
-            bf = dict(bools); bf[dl] = "F"
-            forks = [(tuple(sorted(bt.items())), True), (tuple(sorted(bf.items())), failed)]
         out = []
-        for fl2, failed2 in forks:
-            k = t["t"]
-            if k == "call":
-                n = callee(t)
-                if bb == head:
-                    if failed2 and slot != "N":
-                        report("C09-a/reset-on-failure", "a new attempt starts although the previous one failed and the "
-                               "connection was not dropped", state)
-                    failed3 = False
-                    if t["to"] is not None:
-                        out.append((t["to"], fl2, failed3, slot, kn))
-                    continue
-                if n == SEND:
-                    a = ex.operand(t["args"][1])
-                    if a[0] == "agg" and a[1] == "core::result::Result::Err":
-                        failed2 = True
-                    if failed2 and slot != "N":
-                        # the failing item is handed to the consumer *before* the slot is cleared
-                        pending_at_yield.append(bb)
-                if t["to"] is not None:
-                    out.append((t["to"], fl2, failed2, slot, kn))
-            elif k == "switch":
-                e = ex.operand(t["d"])
-                p = op_place(t["d"])
-                handled = False
-                if p is not None and not p["p"] and p["l"] in dict(fl2):
-                    want = 1 if dict(fl2)[p["l"]] == "T" else 0
-                    tgt = None
-                    for v, tb in t["targets"]:
-                        if v == want:
-                            tgt = tb
-                    out.append((tgt if tgt is not None else t["else"], fl2, failed2, slot, kn))
-                    handled = True
-                elif is_call(e, "Option::<T>::is_none") and any(inner_path(x) for x in walk(e)):
-                    for v, tb in t["targets"]:
-                        if v == 0:
-                            if slot != "N":
-                                out.append((tb, fl2, failed2, "S", kn))
+        k = t["t"]
+        if k == "call":
+            n = callee(t)
+            sc = slot_call(t)
+            if sc == "N":
+                if not failed:
+                    report("C09-b/keep-on-success", "the connection is dropped on a path on which no step of the exchange failed", state)
+                slot = "N"
+            elif sc == "S":
+                slot = "S"
+            if bb == head:
+                if failed and slot != "N":
+                    report("C09-a/reset-on-failure", "a new attempt starts although the previous one failed and the "
+                           "connection was not dropped", state)
+                failed = False
+            if n == SEND:
+                a = ex.operand(t["args"][1])
+                if a[0] == "agg" and a[1] == "core::result::Result::Err":
+                    failed = True
+                if failed and slot != "N":
+                    pending_at_yield.append(bb)     # the failing item is handed out before the slot is cleared
+            if t["to"] is None:
+                return out
+            if n == "core::result::Result::<T, E>::is_err" and not t["dest"]["p"] and t["dest"]["l"] in bool_locals:
+                dl = t["dest"]["l"]
+                kt, kf = dict(known), dict(known)
+                kt[dl], kf[dl] = ("b", True), ("b", False)
+                out.append((t["to"], True, slot, frozenset(kt.items())))
+                out.append((t["to"], failed, slot, frozenset(kf.items())))
+                return out
+            out.append((t["to"], failed, slot, frozenset(known.items())))
+            return out
+        kn2 = frozenset(known.items())
+        if k == "switch":
+            e = ex.operand(t["d"])
+            if only is not None:
+                return [(only, failed, slot, kn2)]
+            if is_call(e, "Option::<T>::is_none") and any(inner_path(x) for x in walk(e)):
+                for v, tb in t["targets"]:
+                    if v == 0 and slot != "N":
+                        out.append((tb, failed, "S", kn2))
+                if slot != "S":
+                    out.append((t["else"], failed, "N", kn2))
+                return out
+            if (bb, t) in [(x, y) for x, y in timeouts]:
+                for v, tb in t["targets"]:
+                    out.append((tb, failed or v == 1, slot, kn2))
+                if b.blocks[t["else"]]["term"]["t"] != "unreachable":
+                    out.append((t["else"], True, slot, kn2))
+                return out
+            v = tr.value(t["d"])
+            if v.kind == "rv" and v.rv["r"] == "discr":
+                ty_ = ty_str(v.rv["of"])
+                if ty_.startswith("core::task::poll::Poll"):
+                    return [(tb, failed, slot, kn2) for val, tb in t["targets"] if val == 0]
+                # Some/None of the slot itself: `match src.inner.as_mut() { Some(t) => .., None => .. }`
+                de = ex.operand(t["d"])
+                if ty_.startswith("core::option::Option<") and any(inner_path(x) for x in walk(de)):
+                    some_t = [tb for val, tb in t["targets"] if val == 1] or [t["else"]]
+                    none_t = [tb for val, tb in t["targets"] if val == 0] or [t["else"]]
+                    if slot != "N":
+                        out.append((some_t[0], failed, "S", kn2))
                     if slot != "S":
-                        out.append((t["else"], fl2, failed2, "N", kn))
-                    handled = True
-                elif (bb, t) in [(x, y) for x, y in timeouts]:
-                    for v, tb in t["targets"]:
-                        out.append((tb, fl2, failed2 or v == 1, slot, kn))
-                    if b.blocks[t["else"]]["term"]["t"] != "unreachable":
-                        out.append((t["else"], fl2, True, slot, kn))
-                    handled = True
-                if not handled:
-                    v = tr.value(t["d"])
-                    if v.kind == "rv" and v.rv["r"] == "discr":
-                        np_ = tr.nplace(v.rv["p"])
-                        if not np_.p and np_.l in known:
-                            want = known[np_.l]
-                            tgt = None
-                            for val, tb in t["targets"]:
-                                if val == want:
-                                    tgt = tb
-                            out.append((tgt if tgt is not None else t["else"], fl2, failed2, slot, kn))
-                            handled = True
-                if not handled:
-                    v = tr.value(t["d"])
-                    if v.kind == "rv" and v.rv["r"] == "discr" and ty_str(v.rv["of"]).startswith("core::task::poll::Poll"):
-                        for val, tb in t["targets"]:
-                            if val == 0:
-                                out.append((tb, fl2, failed2, slot, kn))
-                    else:
-                        for s in b.succ[bb]:
-                            out.append((s, fl2, failed2, slot, kn))
-            elif k == "return":
-                if failed2 and slot != "N":
-                    report("C09-a/reset-on-failure", "the stream ends after a failed attempt without dropping the connection", state)
-            else:
-                for s in b.succ[bb]:
-                    out.append((s, fl2, failed2, slot, kn))
-        return out
+                        out.append((none_t[0], failed, "N", kn2))
+                    return out
+            return [(s, failed, slot, kn2) for s in b.succ[bb]]
+        if k == "return":
+            if failed and slot != "N":
+                report("C09-a/reset-on-failure", "the stream ends after a failed attempt without dropping the connection", state)
+            return out
+        return [(s, failed, slot, kn2) for s in b.succ[bb]]
 
     n = 0
     while dq:
